@@ -210,11 +210,12 @@ func (i *Inserter) ingestTableFromBlocks(columns []string, pk []uint32) ([]byte,
 	if err != nil {
 		return nil, err
 	}
-	sum, err := objects.SaveTable(i.db, buf.Bytes())
-	if err != nil {
-		return nil, err
-	}
-	i.logger.Info("saved table", "sum", sum)
+	// the table object itself is stored last, so that a table that exists in the
+	// store always has its table index and profile
+	tblBytes := make([]byte, buf.Len())
+	copy(tblBytes, buf.Bytes())
+	sumArr := meow.Checksum(0, tblBytes)
+	sum := sumArr[:]
 
 	// write and save table index
 	buf.Reset()
@@ -242,6 +243,11 @@ func (i *Inserter) ingestTableFromBlocks(columns []string, pk []uint32) ([]byte,
 		}
 	}
 
+	sum, err = objects.SaveTable(i.db, tblBytes)
+	if err != nil {
+		return nil, err
+	}
+	i.logger.Info("saved table", "sum", sum)
 	return sum, nil
 }
 
